@@ -225,6 +225,8 @@ def run(ctx):
     ss += extra
     SC.corr_perm(ctx, ss)
     SC.generic_scalar_guard(ctx, ss[:: 2], k=8)
+    # the Monte Carlo entry point hands the drawn numbers - an exact 0.0 at an edge-choice position included - to the same scan
+    SC.rng_entry_agreement(ctx, ss[:: 3], k=8)
     for s in ss:
         a, c = s["impl"], s["case"]
         ctx.case(["api", s["req"]["x"], c["edges"], c["weights"], c["D"]], nontrivial=len(c["edges"]) >= 2 or True)
